@@ -241,6 +241,10 @@ inductive Out where
   | done
 deriving DecidableEq, Repr, Inhabited
 
+def Out.isTok : Out → Bool
+  | .tok _ => true
+  | _ => false
+
 /-- `push_sequence_token` (base offset = current position) -/
 def RSt.push (s : RSt) (isItem : Bool) (len : Nat) (pix : Bool) : RSt :=
   { s with stack := ⟨isItem, len, pix, s.pos⟩ :: s.stack }
